@@ -7,10 +7,10 @@ H=harness
 [ -f $H/Cargo.lock ] || cp /repo/Cargo.lock $H/Cargo.lock
 [ -f $H/runner/Cargo.lock ] || cp /repo/Cargo.lock $H/runner/Cargo.lock
 [ -f nostd/Cargo.lock ] || cp /repo/Cargo.lock nostd/Cargo.lock
-(cd $H && cargo build --release --offline -p mon --bin gen --no-default-features 2>&1 | tail -1)
+(cd $H && cargo build --release --offline -p mon --bin gen 2>&1 | tail -1)
 $H/target/release/gen --out $H/g --seed "${VERIF_SEED:-1}" --tier quick --repo /repo --mon "$(pwd)/$H/mon" >/dev/null
 (cd $H/runner && cargo build --offline --profile release 2>&1 | tail -1)
 (cd $H/runner && cargo build --offline --profile chk 2>&1 | tail -1)
-(cd $H/runner && CARGO_TARGET_DIR="$(pwd)/../target-std" cargo build --offline --profile release --features std 2>&1 | tail -1)
+(cd $H/runner && CARGO_TARGET_DIR="$(pwd)/../target-std,zoo" cargo build --offline --profile release --features std,zoo 2>&1 | tail -1)
 (cd nostd && cargo build --release --offline 2>&1 | tail -1)
 echo "setup done"
